@@ -199,7 +199,9 @@ def loop_shape(ck, ctx):
     if mp is None:
         return
     set_true = [bi for bi in cfg.reach for s in b.blocks[bi]["stmts"] if s["k"] == "assign" and not s["place"]["p"] and s["place"]["l"] == mp and s["rv"]["k"] == "use" and s["rv"]["op"]["k"] == "const" and s["rv"]["op"]["int"] == 1]
-    for callee, label in (("task::Runner::start", "start"), ("work::BuildStates::pop_ready", "pop_ready-some")):
+    # (only the pop_ready side is load-bearing: after Runner::start a command is running, so falling through to the wait is harmless;
+    # after settling ready builds without starting anything the wait/`BUG` test must not be reached)
+    for callee, label in (("work::BuildStates::pop_ready", "pop_ready-some"),):
         for i, (bb, t) in enumerate(Q.sites_in(b, callee)):
             starts = [y for y, _ in cfg.succ[bb]]
             if callee.endswith("pop_ready"):
@@ -289,7 +291,8 @@ def worker_reports(ck, ctx):
 def run(ck, ctx):
     cycle_first(ck, ctx)
     validation(ck, ctx)
-    SM.eff_table(ck, ctx, ["pending+", "pending-"])
+    # a slot that is not given back when a build leaves Running (for Done *or* Failed) strands the rest of its pool: they are never decided
+    SM.eff_table(ck, ctx, ["pending+", "pending-", "running+", "running-"])
     ck.extra["exhaustive_subrule"] = "table: all 98 abstract inputs of BuildStates::set enumerated"
     C.single_writer(ck, ctx, "pending-paired", "work::BuildStates", "total_pending", [SM.SET])
     R01.sites(ck, ctx)
